@@ -56,14 +56,20 @@ type History struct {
 	h    hash.Hash
 }
 
+//go:norace
 func newHistory() *History { return &History{h: sha256.New()} }
 
 // NewHistory creates an empty history (store-level checks that do not use World).
+//
+//go:norace
 func NewHistory() *History { return newHistory() }
 
 // Add appends a record.
+//
+//go:norace
 func (h *History) Add(r *Rec) *Rec { return h.add(r) }
 
+//go:norace
 func (h *History) add(r *Rec) *Rec {
 	r.I = len(h.Recs)
 	h.Recs = append(h.Recs, r)
@@ -78,6 +84,7 @@ func (h *History) add(r *Rec) *Rec {
 	return r
 }
 
+//go:norace
 func propsSig(p *mqttc.Props) string {
 	s := ""
 	if p.TopicAlias != nil {
@@ -91,6 +98,8 @@ func propsSig(p *mqttc.Props) string {
 }
 
 // Hash returns the hash of everything recorded so far.
+//
+//go:norace
 func (h *History) Hash() string { return hex.EncodeToString(h.h.Sum(nil)[:12]) }
 
 // Violation is a failed oracle clause.
@@ -101,4 +110,5 @@ type Violation struct {
 	Sig    string `json:",omitempty"` // signature used to match known findings
 }
 
+//go:norace
 func (v Violation) String() string { return v.Prop + "." + v.Clause + ": " + v.Msg }
